@@ -2,6 +2,7 @@ package exec
 
 import (
 	"fmt"
+	"regexp"
 	"go/types"
 	"math/big"
 
@@ -67,6 +68,11 @@ func (in *Interp) installStubs() {
 			return nil
 		},
 		"vassert": func(in *Interp, a []Value) Value {
+			if in.AssertFilter != nil {
+				if ms, ok := a[1].(Str); ok && ms.B == nil && !in.AssertFilter.MatchString(ms.S) {
+					return nil // an obligation of another property served by the same harness
+				}
+			}
 			in.Obligations++
 			r, m := in.Ctx.Prove(a[0].(*smt.Term))
 			switch r {
@@ -237,3 +243,5 @@ func (v *Violation) Error() string { return "violation: " + v.Msg }
 
 var _ = fmt.Sprint
 var _ types.Type
+
+var _ = regexp.MustCompile
